@@ -25,16 +25,17 @@ structure UnitRef where
   deriving DecidableEq, Repr, Inhabited
 
 /-- The values a line can evaluate to (`dyn DataItem`), which are also the value-carrying
-    token kinds of `TokenType`. Times / date-times are UTC seconds since the epoch plus the
-    sub-second nanoseconds; durations are whole seconds plus nanoseconds. -/
+    token kinds of `TokenType`. Times / date-times are UTC seconds since the epoch, durations
+    whole seconds (sub-second parts only arise from the constant `now`, which is outside the
+    model). -/
 inductive Item (F : Type)
   | number (v : F) (t : NumType)
   | percent (v : F)
   | money (v : F) (cur : String)
-  | time (secs : Int) (nanos : Nat) (tz : Zone)
+  | time (secs : Int) (tz : Zone)
   | date (d : YMD) (tz : Zone)
-  | dateTime (secs : Int) (nanos : Nat) (tz : Zone)
-  | duration (secs : Int) (nanos : Int)
+  | dateTime (secs : Int) (tz : Zone)
+  | duration (secs : Int)
   | dyn (v : F) (u : UnitRef)
   deriving Repr, Inhabited
 
@@ -167,6 +168,84 @@ structure Bridge where
   tgtIndex : Nat
   toSource : String
   toTarget : String
+  deriving Repr, Inhabited
+
+/-- behaviour of a rule registered through `add_rule` (the canned `RuleTrait` implementations
+    the harness registers) -/
+inductive ApiKind (F : Type)
+  | const (v : F)
+  | decline
+  | echo (field : String)
+  | sum
+  | coin (v : F) (cur : String)
+  deriving Repr, Inhabited
+
+/-- the rule functions of `RULE_FUNCTIONS` plus `small_date` and API rules -/
+inductive RuleFn (F : Type)
+  | percentCalculator | convertTimezone | timeWithTimezone | toUnixtime | fromUnixtime
+  | convertMoney | numberOn | numberOf | numberOff | divisionCleanup | durationParse
+  | asDuration | toDuration | atDate | combineDurations | findNumbersPercent
+  | findTotalFromPercent | numberTypeConvert | dynamicTypeConvert | smallDate
+  | api (name : String) (kind : ApiKind F)
+  deriving Repr, Inhabited
+
+/-- `RuleType`: function + tokenised patterns -/
+structure Rule (F : Type) where
+  fn : RuleFn F
+  patterns : List (List (TokInfo F))
+  deriving Repr, Inhabited
+
+/-- `DurationFormat`: `kind` 0 second … 6 year -/
+structure DurFmt where
+  count : String
+  format : String
+  kind : Nat
+  deriving Repr, Inhabited
+
+/-- the per-language tables of `SmartCalcConfig` -/
+structure Lang (F : Type) where
+  name : String
+  constants : List (String × Nat) := []
+  groups : List (String × List String) := []
+  rules : List (Rule F) := []
+  durFmts : List DurFmt := []
+  dateFmts : List (String × String) := []
+  /-- entry m-1 = (short, long) names of month m as `config.month_regex` keeps them -/
+  months : List (String × String) := []
+  deriving Repr, Inhabited
+
+/-- `SmartCalcConfig` -/
+structure Cfg (F : Type) where
+  dec : String := ","
+  thou : String := "."
+  numFmt : NumFmt := {}
+  pctFmt : NumFmt := {}
+  moneyRemoveZero : Bool := false
+  moneyRounding : Bool := true
+  tz : Zone := ⟨"UTC", 0⟩
+  /-- lower-cased code ↦ currency -/
+  currencies : List (String × Currency) := []
+  /-- alias ↦ lower-cased code -/
+  currencyAlias : List (String × String) := []
+  /-- currency code (as in `CurrencyInfo.code`) ↦ rate, ordered by code -/
+  rates : List (String × F) := []
+  zones : List (String × Int) := []
+  /-- families ordered by name, items ordered by index -/
+  units : List (String × List (UnitItem F)) := []
+  bridges : List Bridge := []
+  langs : List (Lang F) := []
+  deriving Inhabited
+
+def Cfg.lang? {F} (c : Cfg F) (name : String) : Option (Lang F) := c.langs.find? (·.name = name)
+
+def assoc? {α} (l : List (String × α)) (k : String) : Option α :=
+  match l with
+  | [] => none
+  | (k', v) :: rest => if k' = k then some v else assoc? rest k
+
+/-- ambient inputs of an evaluation: the current UTC time (seconds since the epoch) -/
+structure Now where
+  secs : Int
   deriving Repr, Inhabited
 
 end SC
